@@ -88,7 +88,9 @@ pub fn finished(tid: usize) {
     TID.with(|t| t.set(None));
     let mut st = lock_state();
     if tid < st.done.len() { st.done[tid] = true; }
-    st.turn = None;
+    // (only a baton that is this thread's own is taken back: a thread that reaches its end without ever having passed a scheduling point
+    //  runs unsynchronised with the driver and must not clear the turn the driver has just handed to somebody else)
+    if st.turn == Some(tid) { st.turn = None; }
     sched().cv.notify_all();
 }
 /// grants one step to `tid`; returns false if that thread has finished its program
